@@ -386,9 +386,9 @@ func c04(x *Ctx) {
 			}
 			c.Examined++
 			badLeaf := ""
-			for _, l := range leaves(st.Val, nil) {
+			for _, l := range leaves(st.Val, func(cl *ssa.Call) bool { _, isB := cl.Call.Value.(*ssa.Builtin); return isB }) {
 				switch y := l.(type) {
-				case *ssa.Const, *ssa.Parameter:
+				case *ssa.Const, *ssa.Parameter, *ssa.Builtin:
 				case *ssa.UnOp:
 					if !spRate(y) {
 						badLeaf = y.String()
